@@ -316,3 +316,24 @@ Definition store_eqb (a b : store) : bool := store_sub a b && keys_sub b a.
 (* one value per identifier in a log (hypothesis of the reload-loop theorem, checked on every case) *)
 Definition functionalb (L : list (tid * val)) : bool :=
   forallb (fun kv => match lookup L (fst kv) with Some w => val_eqb (snd kv) w | None => false end) L.
+
+(* [bindp body f]: the statements of [body], then [f] applied to what [body] returns - the builder of
+   a compound written out in place *)
+Fixpoint bindp (p : jprog) (f : arg -> jprog) : jprog :=
+  match p with
+  | Ret r => f r
+  | Def t k => Def t (bindp k f)
+  | Mark m k => Mark m (bindp k f)
+  | Barrier k => Barrier (bindp k f)
+  | BValue a k => BValue a (fun v => bindp (k v) f)
+  | Compound h ca b k => Compound h ca b (bindp k f)
+  end.
+
+(* the compounds the sequential evaluation went through (nested ones included), with the recorded
+   run of their builders *)
+Fixpoint comps (s : spine) : list (tid * spine) :=
+  match s with
+  | SRet _ _ => []
+  | SDef _ _ s' | SMark _ s' | SBar s' | SBV _ _ s' => comps s'
+  | SComp h _ sb _ s' => (h, sb) :: comps sb ++ comps s'
+  end.
